@@ -32,9 +32,10 @@ fn lex(base: &Path, rel: &str) -> String {
 struct Bp { id: &'static str, dir: &'static str, rust: Option<(&'static str, &'static [&'static str])>, deps: &'static [&'static str] }   // rust: (crate name, additional bins); deps: package.toml URIs
 const BPS: &[Bp] = &[
     Bp { id: "demo/r", dir: "buildpacks/r", rust: Some(("demo-r", &["extra", "tool2"])), deps: &[] },
-    Bp { id: "demo/r2", dir: "buildpacks/r2", rust: Some(("demo-r2", &[])), deps: &[] },
+    Bp { id: "demo/r2", dir: "buildpacks/r2", rust: Some(("demo-r2", &["helper"])), deps: &[] },
+    Bp { id: "demo/r3", dir: "buildpacks/r3", rust: Some(("demo-r3", &[])), deps: &[] },
     Bp { id: "demo/a", dir: "buildpacks/a", rust: None, deps: &["libcnb:demo/r", "docker://docker.io/heroku/example:1.2.3"] },
-    Bp { id: "demo/b", dir: "meta/b", rust: None, deps: &["../vendor/./bash", "libcnb:demo/a", "https://example.com/x.tgz", "libcnb:demo/r2"] },
+    Bp { id: "demo/b", dir: "meta/b", rust: None, deps: &["../vendor/./bash", "libcnb:demo/a", "https://example.com/x.tgz", "libcnb:demo/r2", "libcnb:demo/r3"] },
 ];
 const MAIN_RS: &str = "use libcnb::build::{BuildContext, BuildResult, BuildResultBuilder};\nuse libcnb::detect::{DetectContext, DetectResult, DetectResultBuilder};\nuse libcnb::generic::{GenericError, GenericMetadata, GenericPlatform};\nuse libcnb::{buildpack_main, Buildpack};\nstruct B;\nimpl Buildpack for B {\n    type Platform = GenericPlatform; type Metadata = GenericMetadata; type Error = GenericError;\n    fn detect(&self, _c: DetectContext<Self>) -> libcnb::Result<DetectResult, Self::Error> { DetectResultBuilder::pass().build() }\n    fn build(&self, _c: BuildContext<Self>) -> libcnb::Result<BuildResult, Self::Error> { BuildResultBuilder::new().build() }\n}\nbuildpack_main!(B);\n";
 fn bp_toml(b: &Bp) -> String {
@@ -70,8 +71,8 @@ fn closure(id: &str, out: &mut BTreeSet<&'static str>) {
 
 pub fn package(thorough: bool) -> Report {
     let mut r = Report::new(
-        "the real `cargo libcnb package` (libcnb-cargo built from /repo, offline, host target) on a generated workspace of 2 libcnb.rs buildpacks (one with two additional binary targets, one with none), 2 composite buildpacks (libcnb:, relative-path, docker and https dependencies, forming a DAG), a non-libcnb buildpack directory and an ignore file for the output directories x invocation directory {workspace root, each buildpack directory} x package dir {default, relative --package-dir, absolute --package-dir} x output directories {empty, pre-seeded with stale and foreign content for every buildpack}: exit status 0; stdout lists exactly the selected buildpacks' output directories; for exactly the selected buildpacks and their dependencies the output directory holds exactly a byte-identical buildpack.toml, bin/build = the compiled main binary, bin/detect = symlink to build, .libcnb-cargo/additional-bin/<target> per additional binary (no such directory without one), package.toml (uri \".\"; for composites: libcnb: references replaced by the dependency's output directory, relative paths absolute, other URIs verbatim); pre-seeded runs end in the same tree as runs into an empty directory; output directories of unselected buildpacks are untouched; non-trivial = all",
-        if thorough { "5 invocation directories x 3 package dirs x 2 profiles x 2 seedings" } else { "5 invocation directories x 3 package dirs x dev profile x 2 seedings" },
+        "the real `cargo libcnb package` (libcnb-cargo built from /repo, offline, host target) on a generated workspace of 3 libcnb.rs buildpacks (with two, one and no additional binary targets), 2 composite buildpacks (libcnb:, relative-path, docker and https dependencies, forming a DAG), a non-libcnb buildpack directory and an ignore file for the output directories x invocation directory {workspace root, each buildpack directory} x package dir {default, relative --package-dir, absolute --package-dir} x output directories {empty, pre-seeded with stale and foreign content for every buildpack}: exit status 0; stdout lists exactly the selected buildpacks' output directories; for exactly the selected buildpacks and their dependencies the output directory holds exactly a byte-identical buildpack.toml, bin/build = the compiled main binary, bin/detect = symlink to build, .libcnb-cargo/additional-bin/<target> per additional binary (no such directory without one), package.toml (uri \".\"; for composites: libcnb: references replaced by the dependency's output directory, relative paths absolute, other URIs verbatim); pre-seeded runs end in the same tree as runs into an empty directory; output directories of unselected buildpacks are untouched; non-trivial = all",
+        if thorough { "6 invocation directories x 3 package dirs x 2 profiles x 2 seedings" } else { "6 invocation directories x 3 package dirs x dev profile x 2 seedings" },
     );
     let pers = persistent(); fs::create_dir_all(&pers).unwrap();
     // the tool itself, rebuilt from the current tree (incremental)
